@@ -104,9 +104,7 @@ class PhaseField(_Simu):
         super().__init__(mesh, model, folder, verbosity)
 
         # Init internal variable
-        self.__psiP_e_pg: FeArray.FeArrayALike = np.empty(0, dtype=float)
-        # old positive elastic energy density psiPlus(e, pg, 1) to use the miehe history field
-        self.__old_psiP_e_pg: FeArray.FeArrayALike = np.empty(0, dtype=float)
+        self._Init_internal_state()
 
         self.Need_Update()
 
@@ -127,6 +125,11 @@ class PhaseField(_Simu):
             "petsc",
             self.ProblemTypes.elastic,
         )
+
+    def _Init_internal_state(self) -> None:
+        self.__psiP_e_pg: FeArray.FeArrayALike = np.empty(0, dtype=float)
+        # old positive elastic energy density psiPlus(e, pg, 1) to use the miehe history field
+        self.__old_psiP_e_pg: FeArray.FeArrayALike = np.empty(0, dtype=float)
 
     def Results_nodeFields_elementFields(
         self, details=False
